@@ -71,7 +71,8 @@ def mkenv(entries):
 
 
 NAMES = ["A", "AA", "AB", "A_", "_", "__", "HOME", "HOM", "HOMEX", "B", "A1", "0", "9A", "Z", "a", ""]
-VALUES = ["", "v", "$A", "~", "/h", "x=y", "$HOME", "a b", "~/$A:", "/home/user", "%", "w,z", "\x80\xff"]
+VALUES = ["", "v", "$A", "~", "/h", "x=y", "$HOME", "a b", "~/$A:", "/home/user", "%", "w,z", "\x80\xff", "/h/", "/", "=", "a=b=c",
+          "x/", ":"]
 
 
 def rand_env(r):
